@@ -21,6 +21,16 @@ CLAIMED = {
             'contract-based deductive verification (AST->VC generator, z3 + cvc5), native replay of counter-models'),
 }
 
+CLAIMED['C20'] = (
+    'DESIGN.md 4 C20',
+    'Deductive proof that the representation invariant wf (cached buckets are the right file slices, counters consistent, '
+    'position inside the window) is established/preserved by cache, peek, read, readall, seek, tell and that each returns '
+    'exactly the bytes/positions of the window view F[offset:offset+size]; induction over wf covers operation sequences of '
+    'any length, any buffer size and cache limit.',
+    'Trusted: pyvc encoding; library models FileModel / BytesIOModel / BufMap (dict with ghost cardinality). Explicit size only; '
+    'constructor and call sites not under contract.',
+    'contract-based deductive verification (AST->VC generator, z3 + cvc5), native replay of counter-models')
+
 NOT_APPLICABLE = {
     'C05': 'XML documents come out of Jinja templates rendered by an external engine; no function contract reaches them and the app cannot be instantiated offline (flask_login missing).',
     'C07': 'Identity of string transducers (quote_plus, regex date parsing, split) over a registry built with getattr; SMT string solvers leave these undecided; a proof over only int/bool options would not decide the property.',
